@@ -137,7 +137,10 @@ def run_history(case):
                 # the freshly built real model itself (ids, key order of the seven containers): the counterpart of the
                 # Lean model's `freshState`
                 try:
-                    r["rebuilt"] = {"ids": O.ids_of(fresh), "keys": O.keylists(fresh)}
+                    r["rebuilt"] = {"ids": O.ids_of(fresh), "keys": O.keylists(fresh),
+                                    # every declared name: the keys of the seven containers and all surrogate outputs
+                                    "names": sorted([k for ks in O.keylists(fresh) for k in ks]
+                                                    + [o for su in fresh.get_raw_surrogates().values() for o in su.outputs])}
                 except Exception as e:  # noqa: BLE001
                     r["rebuilt"] = {"content cannot be rebuilt": type(e).__name__}
                 s["rebuilt"] = r["rebuilt"]
@@ -200,7 +203,8 @@ def model_histories(cases):
                 ob["fresh"] = _canon_q(o.get("fresh"), q)
             if "rebuilt" in o:
                 # the Lean model built from scratch by `rebuild` (C03_refines_fresh); compared with the real fresh model
-                ob["rebuilt"] = {"ids": sorted(o["rebuilt"]["ids"]), "keys": o["rebuilt"]["keys"]}
+                ob["rebuilt"] = {"ids": sorted(o["rebuilt"]["ids"]), "keys": o["rebuilt"]["keys"],
+                                 "names": sorted(o["rebuilt"]["names"])}
             obs.append(ob)
         out.append(obs)
     return out
